@@ -104,6 +104,18 @@ LOG (decisions)
   named '<domain>::<function>/<value>' is read back also as that function value's type; the next serialization
   writes a second entry, so the fixpoint fails; the model reproduces it: C17_ser_fixpoint_old_refuted; attribution by
   repair = rename such values.
+* KNOWN finding experimental-function-value-info-function-id (clean tree, ir_version < 10; reported by the C17 mutation
+  engineer, confirmed): a function with an overload, or whose domain / name contains "::" or "/", has its value info
+  written as "domain::name/value" and the reader cannot relate the entry to the function again -> the second round
+  trip drops the types.  Mutation fn_id_odd produces it; the model AGREES (table X has no matching entry, so
+  model_fixpoint_x is false too); attribution by repair = clear overload / sanitise domain and name.  Proposed fix +
+  demo in proposed_fixes/C17-experimental-function-value-info-function-id*.  ModelOld.exp_lookup treats X as a
+  relation (x_has) so that the fixed reader (prefix match against the existing functions) needs a table change only.
+* repair_known_sites applies ONLY the repair of the finding being tested (round 5: the shared repair also removed empty
+  value_info entries = the site of the FIXED finding 420823a, which attributed seeded C17-r5m3 to the open finding).
+* Round 5: mutation type_degenerate (`type {}`, `type { tensor_type {} }`, explicit elem_type 0 with/without shape,
+  sparse/sequence with elem_type 0; aimed at value_info of non-input initializers and node outputs), elem_type 0 in
+  bad_elem_type: seeded C17-r5m2 / C17-r5m3 now reported by the fixpoint oracle with a shrunk proto.
 * IR < 10 experimental function value-info format: MODELLED since the deepening round (C03/ModelOld.v: deser_model_old =
   deser_model + post-pass applying main-graph value_info entries named "{domain}::{function}/{value}" to the function's
   inputs and node outputs; ser_model_old = functions without value_info + those entries appended to the main graph;
@@ -421,7 +433,8 @@ MUTATIONS = ["rename_existing", "rename_empty", "rename_new", "drop", "duplicate
              "bad_utf8", "clear_type", "map_type", "seq_no_elem", "output_repeat", "output_like_input",
              "move_node_inner", "dup_function", "fn_output_unknown", "attr_dup_name", "init_unnamed",
              "vi_for_unknown", "graph_attr_ref", "swap_scopes", "dup_init", "subgraph_output_outer",
-             "name_field_absent", "generated_names", "dangling_with_external", "ir_version_low", "fn_attr_dup_graph", "dim_param_expr"]
+             "name_field_absent", "generated_names", "dangling_with_external", "ir_version_low", "fn_attr_dup_graph", "dim_param_expr",
+             "type_degenerate", "fn_id_odd"]
 
 
 def mutate(m, rng, kind=None):
@@ -548,6 +561,76 @@ def mutate(m, rng, kind=None):
             if not tys:
                 return None
             rng.choice(tys).Clear()
+        elif kind == "type_degenerate":
+            # present-but-uninformative types: `type {}`, `type { tensor_type {} }`, explicit elem_type 0 (UNDEFINED)
+            # with / without a shape; aimed at value_info entries of non-input initializers and of node outputs
+            cands = []
+            for g in graphs:
+                ins = {i.name for i in g.input}
+                inits = [t.name for t in g.initializer if t.name and t.name not in ins]
+                vis = [vi for vi in g.value_info if vi.name in inits]
+                if not vis and inits and rng.random() < 0.7:
+                    vi = g.value_info.add()
+                    vi.name = rng.choice(inits)
+                    vi.type.tensor_type.elem_type = TP.FLOAT
+                    vi.type.tensor_type.shape.dim.add().dim_value = 2
+                    vis = [vi]
+                cands.append((vis, [vi for vi in g.value_info if vi.name not in inits]))
+            r = rng.random()
+            pool = [vi for a, _ in cands for vi in a] if r < 0.45 else [vi for _, b in cands for vi in b] if r < 0.9 else []
+            if pool:
+                ty = rng.choice(pool).type
+            else:
+                tys = all_types(m)
+                if not tys:
+                    return None
+                ty = rng.choice(tys)
+            v = rng.randrange(6)
+            had_shape = ty.HasField("tensor_type") and ty.tensor_type.HasField("shape")
+            if v == 0:
+                ty.Clear()
+                ty.SetInParent()
+            elif v == 1:
+                ty.Clear()
+                ty.tensor_type.SetInParent()
+            elif v == 2:
+                if not had_shape:
+                    ty.Clear()
+                    ty.tensor_type.shape.dim.add().dim_value = 2
+                    ty.tensor_type.shape.dim.add().dim_value = 3
+                ty.tensor_type.elem_type = 0
+            elif v == 3:
+                ty.Clear()
+                ty.tensor_type.elem_type = 0
+            elif v == 4:
+                ty.Clear()
+                ty.sparse_tensor_type.elem_type = 0
+                ty.sparse_tensor_type.shape.dim.add().dim_param = "N"
+            else:
+                ty.Clear()
+                ty.sequence_type.elem_type.tensor_type.elem_type = 0
+        elif kind == "fn_id_odd":
+            # function identifiers the IR<10 "domain::function/value" naming scheme cannot carry: an overload, a
+            # domain / name containing the separators; the function gets typed values so that the scheme is used
+            if not len(m.functions):
+                return None
+            f = rng.choice(m.functions)
+            v = rng.randrange(5)
+            if v == 0:
+                f.overload = "ov"
+            elif v == 1:
+                f.domain = "custom::dom"
+            elif v == 2:
+                f.domain = "cust/dom"
+            elif v == 3:
+                f.name = f.name + "/x"
+            else:
+                f.name = f.name + "::x"
+            typed = [x for x in list(f.input) + [o for n in f.node for o in n.output] if x]
+            if typed and not len(f.value_info):
+                f.value_info.append(H.make_tensor_value_info(rng.choice(typed), TP.FLOAT, [2]))
+            if rng.random() < 0.6:
+                m.ir_version = rng.choice([9, 8, 3])
         elif kind == "map_type":
             tys = all_types(m)
             if not tys:
@@ -1479,6 +1562,23 @@ def _repair_name_collision(q) -> bool:
     return changed
 
 
+def _repair_fn_id(q) -> bool:
+    # experimental-function-value-info-function-id: function identifiers the "<domain>::<function>/<value>" names
+    # cannot carry (overload, separators inside domain / name)
+    changed = False
+    if q.ir_version < 10:
+        for f in q.functions:
+            if f.overload:
+                f.ClearField("overload")
+                changed = True
+            for fld in ("domain", "name"):
+                k = getattr(f, fld)
+                if "::" in k or "/" in k:
+                    setattr(f, fld, k.replace("::", "__").replace("/", "_"))
+                    changed = True
+    return changed
+
+
 def _repair_dup_initializer(q) -> bool:
     # reser-duplicate-initializer-bad-dtype: keep only the LAST initializer of every repeated name
     changed = False
@@ -1535,6 +1635,7 @@ def _repair_empty_value_info(q) -> bool:
 
 
 REPAIRS = {"experimental-function-value-info-name-collision": _repair_name_collision,
+           "experimental-function-value-info-function-id": _repair_fn_id,
            "reser-duplicate-initializer-bad-dtype": _repair_dup_initializer,
            "ghost-consumers-of-dropped-duplicate-attribute": _repair_dup_attribute,
            "fixpoint-initializer-empty-value-info": _repair_empty_value_info}
@@ -1551,17 +1652,24 @@ def repair_known_sites(p, key):
 
 def known_key(ck, msgs: list[str], p=None):
     """A failure is attributed to a known finding only if (a) every message is of the recorded kind and
-    (b) removing the recorded site from the proto makes the oracle pass."""
-    for k in ck._known:
-        if k.get("status") != "known":
-            continue
-        if not all(k.get("site", {}).get("message_contains", "\0") in m for m in msgs):
-            continue
-        if p is None:
-            continue
+    (b) removing the recorded site of THAT finding from the proto makes the oracle pass (or, when the proto has the
+    sites of several open findings, removing all of those: attributed to the first)."""
+    if p is None:
+        return None
+    cands = [k for k in ck._known if k.get("status") == "known"
+             and all(k.get("site", {}).get("message_contains", "\0") in m for m in msgs)]
+    for k in cands:
         q = repair_known_sites(p, k["key"])
         if q is not None and not oracle_fails(q):
             return k["key"]
+    if len(cands) > 1:
+        q, hit = copy.deepcopy(p), []
+        for k in cands:
+            fn = REPAIRS.get(k["key"])
+            if fn is not None and fn(q):
+                hit.append(k["key"])
+        if len(hit) > 1 and not oracle_fails(q):
+            return hit[0]
     return None
 
 
